@@ -1190,6 +1190,7 @@ pub fn run_c02(r: &Runner) {
     }
     families_phase(r, "prefix", &any_entry, check_c02);
     repeat_boundary_phase(r, "prefix", &any_entry, check_c02);
+    pair_phase(r, "prefix", &any_entry, check_c02);
     chunk_sweep_phase(r, "prefix", check_c02);
     // extension direction: heads from the hygiene sweeps followed by 72 bytes of padding, so
     // that the same head is scanned once inside the last <32 bytes of a buffer and once
@@ -1337,6 +1338,7 @@ pub fn run_c05(r: &Runner) {
     families_phase(r, "hygiene", &msg_entry, check_c05);
     repeat_boundary_phase(r, "hygiene", &msg_entry, check_c05);
     after_blank_run_phase(r, "hygiene", &msg_entry, check_c05);
+    pair_phase(r, "hygiene", &msg_entry, check_c05);
     literal_sweep(r, "hygiene", check_c05);
     c05_sweeps(r);
     c05_lanes(r, if r.quick() { 70 } else { 140 });
